@@ -1,5 +1,7 @@
 import LiquidVerif.Lemmas.Mode
 import LiquidVerif.Lemmas.ModeSim
+import LiquidVerif.Model.ModeAsync
+import LiquidVerif.Lemmas.ModeConv
 import LiquidVerif.Gen.ModeSites
 /-!
 # C03 — lax and warn modes suppress errors without changing correct output
@@ -200,6 +202,94 @@ theorem strict_ok_implies_lax_warn_same (c : Cfg σ) (src : List (Tok σ)) (st :
     run (c.withMode .lax) src st = .ok out {} ∧ run (c.withMode .warn) src st = .ok out { suppressed := [], warnings := [] } :=
   ⟨(strict_ok_implies_same c src st out log h).2 .lax, (strict_ok_implies_same c src st out log h).2 .warn⟩
 
+/-! ## The converse direction: outside the strict-only guards a strict failure is always visible in lax and warn mode
+
+`GuardFree src`: no expression token of the stream (and, `LoaderGuardFree`, of any template the loader returns) sits
+behind one of the strict-only raise guards (`PBeh.strictOnly`) — the 7 `raiseGuard` sites of `Gen/ModeSites.lean`. -/
+
+/-- on guard-free streams, a lax run that suppresses nothing is the strict run -/
+theorem lax_quiet_implies_strict_same (c : Cfg σ) (hld : LoaderGuardFree c) (src : List (Tok σ)) (hg : GuardFree src) (st : σ)
+    (out : String) (log : Log) (h : run (c.withMode .lax) src st = .ok out log) (hq : log.suppressed = []) :
+    run (c.withMode .strict) src st = .ok out log :=
+  run_conv c hld src hg st out log h hq
+
+/-- if strict mode raises (at parse or at render) on a guard-free stream, lax mode suppresses at least one error -/
+theorem strict_fails_implies_lax_suppresses (c : Cfg σ) (hld : LoaderGuardFree c) (src : List (Tok σ)) (hg : GuardFree src) (st : σ)
+    (h : ∀ out log, run (c.withMode .strict) src st ≠ .ok out log) :
+    ∃ out log, run (c.withMode .lax) src st = .ok out log ∧ log.suppressed ≠ [] := by
+  obtain ⟨out, log, hl⟩ := lax_never_raises (c.withMode .lax) (by simp) src st
+  refine ⟨out, log, hl, fun hq => ?_⟩
+  exact h out log (run_conv c hld src hg st out log hl hq)
+
+/-- … and warn mode emits at least one warning -/
+theorem strict_fails_implies_warn_warns (c : Cfg σ) (hld : LoaderGuardFree c) (src : List (Tok σ)) (hg : GuardFree src) (st : σ)
+    (h : ∀ out log, run (c.withMode .strict) src st ≠ .ok out log) :
+    ∃ out log, run (c.withMode .warn) src st = .ok out log ∧ log.warnings ≠ [] := by
+  obtain ⟨out, logL, hl, hne⟩ := strict_fails_implies_lax_suppresses c hld src hg st h
+  obtain ⟨outW, logW, hw⟩ := lax_never_raises (c.withMode .warn) (by simp) src st
+  have hs := warn_same_as_lax c src st
+  rw [hl, hw] at hs
+  simp only [Outcome.silent, Outcome.ok.injEq] at hs
+  obtain ⟨_, hlog⟩ := hs
+  have hrep := warn_reports_each (c.withMode .warn) rfl src st outW logW hw
+  refine ⟨outW, logW, hw, fun hq => hne ?_⟩
+  rw [hlog]
+  simp only [Log.silent_suppressed]
+  rw [hq] at hrep
+  cases hsup : logW.suppressed with
+  | nil => rfl
+  | cons a t => rw [hsup] at hrep; simp at hrep
+
+/-- the same at parse level (`env.from_string`) -/
+theorem strict_parse_fails_implies_lax_suppresses (c : Cfg σ) (src : List (Tok σ)) (hg : GuardFree src) (e : Err)
+    (h : parseTemplate (c.withMode .strict) src {} = .error e) :
+    ∃ nodes log, parseTemplate (c.withMode .lax) src {} = .ok (nodes, log) ∧ log.suppressed ≠ [] := by
+  obtain ⟨ns, log', hx, hlt⟩ := parse_strict_fails_lax_suppresses c src {} hg e h
+  refine ⟨ns, log', hx, fun hq => ?_⟩
+  rw [hq] at hlt
+  simp at hlt
+
+/-- the hypothesis is needed: behind a strict-only guard strict raises while lax/warn go on silently (by design) -/
+theorem strict_fails_lax_silent_counterexample :
+    ∃ (c : Cfg Unit) (src : List (Tok Unit)),
+      run (c.withMode .strict) src () = .parseError "LiquidSyntaxError" ∧
+      run (c.withMode .warn) src () = .ok "" {} := by
+  refine ⟨{ mode := .lax, warnTable := [], syntaxClasses := [], tags := fun _ => .unknown, nestLimit := 5, depthLimit := 5, loader := fun _ => none },
+    [.output, .expr ⟨.strictOnly "LiquidSyntaxError" none, fun _ => ((), .ok ⟨"", 0⟩)⟩], ?_, ?_⟩ <;> decide
+
+/-! ## The asynchronous render loop (`render_with_context_async`, modelled as its own function in `Model/ModeAsync.lean`)
+
+The node-level async twins are C01's obligations (erase-equal pairs / reviewed residuals); here the *loop* — the place
+where the mode is consulted — is modelled separately and proved equal to the sync loop, so every theorem above holds for
+`render_async` as well. -/
+
+/-- the async template loop is the sync template loop, for every node renderer -/
+theorem async_loop_equals_sync_loop (c : Cfg σ) (rn : Node σ → RS σ → RS σ × Sig) (p b : Bool) (ns : List (Node σ)) (rs : RS σ) :
+    templateLoopAsync c rn p b ns rs = templateLoop c rn p b ns rs :=
+  templateLoopAsync_eq c rn p b ns rs
+
+/-- `await from_string(src).render_async(data)` observes what `from_string(src).render(data)` observes, in every mode -/
+theorem async_run_equals_sync_run (c : Cfg σ) (src : List (Tok σ)) (st : σ) : runAsync c src st = run c src st :=
+  runAsync_eq c src st
+
+/-- sentence 1 for `render_async` -/
+theorem lax_never_raises_async (c : Cfg σ) (h : c.mode ≠ .strict) (src : List (Tok σ)) (st : σ) :
+    ∃ out log, runAsync c src st = .ok out log := by
+  rw [runAsync_eq]; exact lax_never_raises c h src st
+
+/-- sentence 2 for `render_async` -/
+theorem warn_reports_each_async (c : Cfg σ) (h : c.mode = .warn) (src : List (Tok σ)) (st : σ) (out log)
+    (hr : runAsync c src st = .ok out log) : log.warnings = log.suppressed.map (lookupWarning c.warnTable) := by
+  rw [runAsync_eq] at hr; exact warn_reports_each c h src st out log hr
+
+/-- sentence 3 for `render_async` -/
+theorem strict_ok_implies_same_async (c : Cfg σ) (src : List (Tok σ)) (st : σ) (out : String) (log : Log)
+    (h : runAsync (c.withMode .strict) src st = .ok out log) :
+    log = {} ∧ ∀ m, runAsync (c.withMode m) src st = .ok out {} := by
+  rw [runAsync_eq] at h
+  obtain ⟨h1, h2⟩ := strict_ok_implies_same c src st out log h
+  exact ⟨h1, fun m => by rw [runAsync_eq]; exact h2 m⟩
+
 /-! ## Tie to the source: obligations over the generated inventory (`Gen/ModeSites.lean`, rewritten on every run) -/
 
 /-- every consultation of the mode in liquid/ has a benign shape (re-exported; decided in the generated file) -/
@@ -232,7 +322,8 @@ section examples
 
 def exTags (name : String) : TagKind :=
   if name == "if" then .cond "endif" false else if name == "for" then .loop "endfor"
-  else if name == "break" then .interrupt true else if name == "echo" then .eval true else .unknown
+  else if name == "break" then .interrupt true else if name == "echo" then .eval true
+  else if name == "case" then .case_ "endcase" else .unknown
 
 def exCfg (m : Mode) : Cfg Unit :=
   { mode := m, warnTable := Gen.ModeSites.warnings, syntaxClasses := Gen.ModeSites.syntaxClasses, tags := exTags,
@@ -261,6 +352,16 @@ example : run (exCfg .warn) badSrc () =
     .ok "ab" { suppressed := ["LiquidSyntaxError", "LiquidSyntaxError", "LiquidSyntaxError", "FilterArgumentError", "LiquidSyntaxError"],
                warnings := ["LiquidSyntaxWarning", "LiquidSyntaxWarning", "LiquidSyntaxWarning", "FilterWarning", "LiquidSyntaxWarning"] } := by
   decide
+
+/-- `{% case 1 %} junk {% when 1, 1 %}y{% else %}n{% when %}z{% endcase %}{% when 1 %}` -/
+def caseSrc : List (Tok Unit) :=
+  [.tag "case", lit "" 0, .content " junk ", .tag "when", lit "" 2, .content "y", .tag "else", .content "n", .tag "when", .content "z",
+   .tag "endcase", .tag "when", lit "" 1]
+
+example : run (exCfg .strict) caseSrc () = .parseError "LiquidSyntaxError" := by decide
+example : run (exCfg .warn) caseSrc () =
+    .ok "" { suppressed := ["LiquidSyntaxError", "LiquidSyntaxError"], warnings := ["LiquidSyntaxWarning", "LiquidSyntaxWarning"] } := by decide
+example : runAsync (exCfg .lax) badSrc () = run (exCfg .lax) badSrc () := by decide
 
 end examples
 
